@@ -340,21 +340,36 @@ Definition C10_ok (o : obs) : bool :=
     [so_cwd] is the effective working directory of the started job ([None]:
     nothing fixes it -- the job inherits the conductor's directory). *)
 Record sobs := mksobs {
-  so_ws : str;               (* the instance's workspace *)
+  so_ws : str;               (* the instance's workspace (an existing directory) *)
+  so_raised : bool;          (* submit raised instead of starting a job *)
   so_cwd : option str;       (* effective working directory of the started job *)
-  so_outs : list str         (* its stdout / stderr paths, relative or absolute *)
+  so_outs : list str;        (* its declared stdout / stderr targets, relative or absolute *)
+  so_script : option str;    (* the script the launcher is told to run, as the shell (if any)
+                                reads that word; None: the command line is not readable *)
+  so_script_real : str       (* the script write_script produced *)
 }.
 
+(** The job is started, in the workspace; every declared stdout / stderr target,
+    resolved against the job's working directory, is a file DIRECTLY in the
+    workspace (as C10_writes_inside states of the model); the launcher is
+    pointed at the script that was written. *)
 Definition submit_ok (o : sobs) : bool :=
+  negb (so_raised o) &&
   match so_cwd o with
   | None => false
   | Some d =>
       npath_eqb (npath d) (npath (so_ws o)) &&
-      forallb (fun f => inside (so_ws o) (join2 d f)) (so_outs o)
+      forallb (fun f => child (so_ws o) (join2 d f)) (so_outs o) &&
+      match so_script o with
+      | None => false
+      | Some p => npath_eqb (npath (join2 d p)) (npath (so_script_real o))
+      end
   end.
 
-(** the model: the job runs in the workspace, output files are plain names *)
-Definition model_sobs (ws : str) (names : list str) : sobs := mksobs ws (Some ws) names.
+(** the model: the job runs in the workspace, output files are plain names, the
+    script is referred to by its own path *)
+Definition model_sobs (ws : str) (names : list str) (script : str) : sobs :=
+  mksobs ws false (Some ws) names (Some script) (join2 ws script).
 
 (* ------------------------------------------------------------------------ *)
 (** * Hygiene (decidable form) and the known-finding signatures *)
